@@ -533,6 +533,26 @@ def eval_recorder(case, acc=None):
     r = _check_2d_hist(site, h, [x[0] for x in rows], [x[1] for x in rows], spec, viol, case, names=("from", "to"))
     if acc is not None and r is not None:
         acc.outcomes.add(hash((tuple(r[0]), tuple(r[1]), tuple(map(tuple, r[2])))))
+    # history on ONE recorder: histogram asked while the signal is still streaming (after the first loop, and on the
+    # still empty recorder), more loops recorded, histogram asked again - it must be the histogram of a fresh recorder
+    # holding all loops (class edges derived from a bin *count* follow the data)
+    if len(rows) >= 2:
+        kept = RF.LoopValueRecorder()
+
+        def history():
+            kept.histogram(_bins(spec)) if spec["t"] != "int" else kept.histogram_numpy(_bins(spec))
+            kept.record_values(np.array([rows[0][0]]), np.array([rows[0][1]]))
+            kept.histogram(_bins(spec))
+            kept.record_values(np.array([r[0] for r in rows[1:]]), np.array([r[1] for r in rows[1:]]))
+            return kept.histogram(_bins(spec))
+        h2 = _call(site + "/asked-between-recordings", history, viol, case)
+        if acc is not None:
+            acc.evaluations += 3
+        if h2 is not None and not (list(map(str, h2.index)) == list(map(str, h.index))
+                                   and np.array_equal(h2.to_numpy(dtype=float), h.to_numpy(dtype=float))):
+            viol.append(("C14/%s/asked-between-recordings/differs-from-fresh-recorder" % site, case,
+                         {"kept_recorder": h2.to_numpy(), "kept_classes": [str(i) for i in h2.index][:12],
+                          "fresh_recorder": h.to_numpy(), "fresh_classes": [str(i) for i in h.index][:12]}))
     # the recorder's collective must hold the same loops
     c = rec.collective
     if not _same(c["from"], [x[0] for x in rows]) or not _same(c["to"], [x[1] for x in rows]):
@@ -740,7 +760,28 @@ def eval_combine(case, acc=None):
         return viol
     if float(r.sum()) != total:
         viol.append(("C14/%s/grand-total" % site, case, {"inputs_total": total, "combined_total": float(r.sum()), "combined": r.to_numpy()}))
-    elif not case.get("two_d") and len(r):
+    if not case.get("two_d") and len(hs) >= 2:
+        # the documented preparation: bring all histograms onto ONE common binning first (classes a histogram does not
+        # reach are marked NaN with nan_default=True), then combine: NaN marks "no data", the counts of the others stay
+        from pylife.utils.histogram import rebin_histogram
+        lo = float(min(iv.left for h in hs for iv in h.index)) - 1.0
+        hi = float(max(iv.right for h in hs for iv in h.index)) + 1.0
+        nb = int(round(hi - lo))
+        common = pd.IntervalIndex.from_breaks([lo + k for k in range(nb + 1)])
+        shifted = [hs[0]] + [pd.Series(h.to_numpy(), index=pd.IntervalIndex.from_arrays(h.index.left + 1.0 * k, h.index.right + 1.0 * k, name=h.index.name))
+                             for k, h in enumerate(hs[1:], start=1) if True]
+        # (the later histograms are shifted by 1, 2, ... so that the inputs do not cover the same classes)
+        hi2 = float(max(iv.right for h in shifted for iv in h.index)) + 1.0
+        common = pd.IntervalIndex.from_breaks([lo + k for k in range(int(round(hi2 - lo)) + 1)])
+        rb = _call(site + "/nan-marked-common-binning", lambda: [rebin_histogram(h, common, nan_default=True) for h in shifted], viol, case)
+        if rb is not None:
+            r2 = _call(site + "/nan-marked-common-binning", lambda: combine_histogram(rb, method="sum"), viol, case)
+            if acc is not None:
+                acc.evaluations += len(rb) + 1
+            if r2 is not None and abs(float(np.nansum(r2.to_numpy())) - total) > 1e-9 * max(total, 1.0):
+                viol.append(("C14/%s/nan-marked-common-binning/grand-total" % site, case,
+                             {"inputs_total": total, "rebinned": [h.to_numpy() for h in rb], "combined": r2.to_numpy()}))
+    if float(r.sum()) == total and not case.get("two_d") and len(r):
         # the documented next step: re-bin the combined histogram (whose classes may overlap / contain one another)
         # to gap-free binnings that cover it; the total must survive
         from pylife.utils.histogram import rebin_histogram
